@@ -186,6 +186,20 @@ def c16_extra(work, res, uf, rng, quick):
             steps = [enc(0, 0), enc(1, 0), enc(0, 0), enc(1, 16), enc(0, 16), {"op": "encode", "ty": s, "v": 0, "byval": True, "buf": {"mode": "size", "n": 0, "extra": 0}}]
             sid = "C16-seq-%s-%d" % (s, i)
             scen.append({"sid": sid, "prop": "C16", "vals": [a, b], "steps": steps, "tags": struct_tags(s, a, uf) + struct_tags(s, b, uf), "dkey": sid})
+    # a value passed by pointer that the caller keeps, then by-value calls with OTHER values of the type: the first one is untouched
+    for s in sorted(uf.keys()):
+        if uf[s].get("invalid"):
+            continue
+        vs = [v for (_, v) in U.struct_variants(s, uf, [0, 1, 3], [0, 1, 9])][:3]
+        if len(vs) < 2:
+            continue
+        steps = [{"op": "size", "ty": s, "v": 0, "keep": True},
+                 {"op": "size", "ty": s, "v": 1, "byval": True},
+                 {"op": "encode", "ty": s, "v": len(vs) - 1, "byval": True, "buf": {"mode": "size", "n": 0, "extra": 0}},
+                 {"op": "recheck", "obj": 0, "after": "byval-calls"},
+                 {"op": "encode", "ty": s, "v": 0, "keep": False, "buf": {"mode": "size", "n": 0, "extra": 0}}]
+        sid = "C16-kept-%s" % s
+        scen.append({"sid": sid, "prop": "C16", "vals": vs, "steps": steps, "tags": ["kept-argument"], "dkey": sid})
     out = [Batch("sequences", uf, scen)]
     ddefs = cm.decoder_universe()
     dpath = vlib.write_defs(work, ddefs)
@@ -210,6 +224,10 @@ def c16_extra(work, res, uf, rng, quick):
     # several places of the input: the input itself must stay as it was)
     from universe import T, field, struct
     hd = {"WRunsI": struct([field(i, "default", T("i32") if i % 3 else T("string")) for i in range(1, 11)])}
+    # long runs of fixed-width elements (a decoder may be tempted to convert them in place)
+    from universe import L, SET, M
+    hd["Fixed8"] = struct([field(1, "default", L(T("i64"))), field(2, "default", SET(T("double"))), field(3, "default", L(T("i32"))), field(4, "default", L(T("i16"))),
+                           field(5, "default", M(T("i64"), T("double"))), field(6, "default", L(T("enum")))])
     masks = [{2, 4}, {3, 6, 9}, {1, 5, 10}, {2, 3, 7, 8}, {5}, {1, 3, 5, 7, 9}]
     for mi, mk in enumerate(masks):
         hd["TRunsI%d" % mi] = struct([f for f in hd["WRunsI"]["fields"] if f["id"] in mk], unk=True)
@@ -224,6 +242,21 @@ def c16_extra(work, res, uf, rng, quick):
     res.tlc_states += st.get("distinct", 0)
     res.tlc_transitions += st.get("generated", 0)
     hscen = []
+    fx = []
+    for n in (31, 32, 33, 64, 200):
+        v = {"f": {"1": {"nil": False, "items": [U.be(j * 1000003 + 1, 8) for j in range(n)]}, "2": {"nil": False, "items": [U.be(0x3ff0000000000000 + j * 4099, 8) for j in range(n)]},
+                   "3": {"nil": False, "items": [U.be(j * 65537 + 3, 4) for j in range(n)]}, "4": {"nil": False, "items": [U.be(j * 257 % 65536, 2) for j in range(n)]},
+                   "5": {"nil": False, "ents": [[U.be(j + 1, 8), U.be(0x4000000000000000 + j, 8)] for j in range(n)]},
+                   "6": {"nil": False, "items": [U.enum8(j * 3) for j in range(n)]}}, "unk": []}
+        fx.append({"cid": "fx8|%d" % n, "w": "Fixed8", "val": v, "ord": "asc", "trail": [], "mut": "none"})
+    fmsgs, stf = vlib.gen_messages(work, hpath, fx)
+    res.tlc_states += stf.get("distinct", 0)
+    res.tlc_transitions += stf.get("generated", 0)
+    fsteps = []
+    for c in fx:
+        m = fmsgs[c["cid"]][0]
+        fsteps += [{"op": "decode", "ty": "Fixed8", "in": m, "dest": "fresh"}, {"op": "decode", "ty": "Fixed8", "in": m, "dest": "zero"}]
+    hscen.append({"sid": "C16-dec-fixed-runs", "prop": "C16", "vals": [], "steps": fsteps, "tags": ["fixed-runs"], "dkey": "fixed-runs"})
     for mi in range(len(masks)):
         steps = []
         for c in hcases:
